@@ -306,4 +306,58 @@ def binaryTest (rates : List α) (weights : List Rat) (obs : List Nat) (stream :
 /-- `a[σ]` (fancy indexing with an index list) -/
 def reindex {β} [Inhabited β] (σ : List Nat) (xs : List β) : List β := σ.map (fun i => xs[i]?.getD default)
 
+/-! ## per-event region lookup without memory: csep/core/regions.py:1043-1086 (quadtree regions)
+
+`QuadtreeGrid2D.get_index_of` loops over the points in storage order and appends what `_find_location` returns for
+each of them; `_find_location` tests the point against the half-open box `west ≤ lon < east ∧ south ≤ lat < north` of
+every cell and returns the first hit (an empty array, which `numpy.append` drops, when there is none). Nothing is
+remembered between two points. A point exactly on a tile edge therefore belongs to the tile east / north of the edge
+whatever was located before it. -/
+
+/-- `[west, south, east, north]` of one cell (a row of `region.bounds`) -/
+structure Box where
+  west : Rat
+  south : Rat
+  east : Rat
+  north : Rat
+  deriving DecidableEq, Repr
+
+/-- regions.py:1081-1082: `lon >= west and lat >= south and lon < east and lat < north` -/
+def inBox (b : Box) (lon lat : Rat) : Bool :=
+  decide (b.west ≤ lon) && decide (b.south ≤ lat) && decide (lon < b.east) && decide (lat < b.north)
+
+/-- regions.py:1075 `_find_location`: index of the first cell whose half-open box holds the point (`none` = the empty
+array returned when no cell does) -/
+def findLocation : List Box → Rat → Rat → Option Nat
+  | [], _, _ => none
+  | b :: bs, lon, lat => if inBox b lon lat then some 0 else (findLocation bs lon lat).map (· + 1)
+
+/-- regions.py:1054-1060 `get_index_of` for arrays: `idx = numpy.append(idx, self._find_location(lons[i], lats[i]))`
+for every point in storage order -/
+def getIndexOf (bounds : List Box) (pts : List (Rat × Rat)) : List Nat :=
+  pts.filterMap (fun p => findLocation bounds p.1 p.2)
+
+/-- a stored event before the lookup: ((longitude, latitude), magnitude bin) -/
+abbrev RawEvent := (Rat × Rat) × Nat
+
+/-- the (cell, bin) pairs the gridding loops consume, one lookup per stored event in storage order -/
+def locateEvents (bounds : List Box) (raw : List RawEvent) : List Event :=
+  raw.filterMap (fun r => (findLocation bounds r.1.1 r.1.2).map (fun c => (c, r.2)))
+
+/-! ## re-ordering the stored rows of ONE catalog object between evaluations
+
+`catalog.catalog[:] = catalog.catalog[σ]`, `catalog.catalog.sort(order=...)`, `numpy.random.shuffle(catalog.catalog)`
+and `catalog.catalog = catalog.catalog[σ]` all leave the object holding `rows[σ]`; every evaluation reads the rows the
+object holds at the time of the call (catalogs.py:664-784 read `self.get_longitudes()` … afresh). -/
+
+/-- the rows after one in-place re-ordering with the index list σ -/
+def reorderInPlace {β} [Inhabited β] (rows : List β) (σ : List Nat) : List β := reindex σ rows
+
+/-- the rows after a sequence of in-place re-orderings -/
+def reorderSeq {β} [Inhabited β] (rows : List β) (steps : List (List Nat)) : List β := steps.foldl reorderInPlace rows
+
+/-- what the k-th evaluation of a session sees: the rows after the first k re-orderings -/
+def sessionViews {β} [Inhabited β] (rows : List β) (steps : List (List Nat)) : List (List β) :=
+  (List.range (steps.length + 1)).map (fun k => reorderSeq rows (steps.take k))
+
 end PermInv
